@@ -7,4 +7,4 @@ Extraction "cap_model.ml" all_types ex_exec ex_exec_unguarded ex_loc ex_cmd ex_a
   REG reg_put reg_get markidx lbuf_mark lbuf_jump vb_run back_after_read rep_copy led_render_off cells_index
   ex_pathexpand ex_pathexpand_gen b_run b_run_gen b_init bufs_findroom
   REGSZ VIBUFSZ VIBUFGUARD PATHCAP NMARKS NBUFS REPCMDSZ ICMDSZ
-  vi_help_tag_gen vi_help_tag ai_init ai_step ai_run TAGSZ AISZ.
+  vi_help_tag_gen vi_help_tag ai_init ai_step ai_run TAGSZ AISZ uc_trim cut_store.
